@@ -29,14 +29,18 @@ from deep.config.tracepoint_config import TracepointConfigService, ConfigUpdateL
 class ConfigService:
     """This is the main service that handles config for DEEP."""
 
-    def __init__(self, custom: Dict[str, any] = None, tracepoints=TracepointConfigService()):
+    def __init__(self, custom: Dict[str, any] = None, tracepoints: TracepointConfigService = None):
         """
         Create a new config object.
 
         :param custom: any custom values that are passed to DEEP
+        :param tracepoints: the tracepoint config to use, a new one by default (a default value in the signature is
+                            created once: every config in the process would share its tracepoints, hash and listeners)
         """
         if custom is None:
             custom = {}
+        if tracepoints is None:
+            tracepoints = TracepointConfigService()
         self._plugins = []
         self.__custom = custom
         self._resource = None
